@@ -76,6 +76,17 @@ def rand_content(rng, n, boundary, text):
              b"\x00", b" ", b"a", b"\r\n-", b"\r\n--", b"\n--", b"--\r\n", "é".encode(), b"\r\r\n"]
     if not text:
         alpha += [b"\xff", b"\xc3"]
+    if n >= 60000 and rng.random() < 0.5:
+        # one long line: the 64 KiB line limit falls on content bytes or on the CR / LF of the structural line end
+        alpha = [b"a", b"-", b" ", b"\x00", b"--", "é".encode()]
+        if rng.random() < 0.3:
+            k = rng.choice([65535, 65534, 65536, 131071])
+            if k < n:
+                head = b"".join(rng.choice(alpha) for _ in range(k))[:k]
+                if text:
+                    head = head.decode("utf-8", "ignore").encode("utf-8")
+                    head += b"a" * (k - len(head))
+                return (head + rng.choice([b"\r", b"\n", b"\r\n", b"\r\r"]) + b"tail")[:n]
     out = b""
     while len(out) < n:
         out += rng.choice(alpha)
